@@ -126,7 +126,7 @@ def main(argv: list[str]) -> int:
             known_hit.append((sig, open_sigs[sig]["what"], fail_counts[sig]))
             continue
         try:
-            small = core.shrink_case(module, kind, case, sig, shrink_budget)
+            small = case if sig.endswith("/nonterminating") else core.shrink_case(module, kind, case, sig, shrink_budget)
         except Exception:  # noqa: BLE001
             small = case
         if small != case:
